@@ -175,6 +175,7 @@ pub fn run(case: &Case) -> Outcome {
     let cancel_done = Arc::new(AtomicU64::new(u64::MAX));
 
     // ---- target ----
+    let yield_in_drop = case.cfg(2) == 1;
     let target = {
         let (sh, log, states, ledger) = (sh.clone(), log.clone(), states.clone(), ledger.clone());
         let ops = target_ops.clone();
@@ -184,6 +185,17 @@ pub fn run(case: &Case) -> Outcome {
                 let _dg = DoneGuard(&states, 0);
                 // values owned by the stack of the target
                 let _vals: Vec<Tok> = (0..n_vals).map(|i| ledger.tok(i)).collect();
+                // cfg[2] == 1: one of them reaches a yield point in its destructor (for a
+                // cancelled coroutine that yield returns at once)
+                struct YieldOnDrop(bool);
+                impl Drop for YieldOnDrop {
+                    fn drop(&mut self) {
+                        if self.0 {
+                            may::coroutine::yield_now();
+                        }
+                    }
+                }
+                let _y = YieldOnDrop(yield_in_drop);
                 let _second = if hold_second { Some(sh.held.lock().unwrap()) } else { None };
                 states.enter(0, 0, PRE);
                 gate_wait(&sh);
@@ -424,6 +436,25 @@ pub fn run(case: &Case) -> Outcome {
     for h in cancellers {
         let _ = h.join();
     }
+    // a coroutine that is not cancelled never observes a cancellation - also not the ones
+    // that get the target's pooled stack afterwards: two fresh coroutines really block once
+    {
+        let probe_sem = Arc::new(Semphore::new(0));
+        let mut ps = vec![];
+        for _ in 0..2 {
+            let s = probe_sem.clone();
+            ps.push(spawn(CO, "probe", move || s.wait()));
+        }
+        sleep_ns(20_000);
+        probe_sem.post();
+        probe_sem.post();
+        for p in ps {
+            match p.join() {
+                End::Ok(()) => {}
+                e => out.fail("fresh-coroutine-after-the-target-observed-a-cancel", e.kind()),
+            }
+        }
+    }
     crate::child::settle();
 
     // ---------------- oracle ----------------
@@ -550,7 +581,7 @@ pub fn strategy(g: &GenCfg) -> BoxedStrategy<Case> {
             // always a canceller in this family
             let c = canc.unwrap_or(Actor { ctx: TH, role: 9, ops: vec![Op(20, 0, 1_000)] });
             actors.push(c);
-            Case { fam: "cancel".into(), workers, pool, feat, cfg: vec![hold, nvals], actors, sched, weak: 0 }
+            Case { fam: "cancel".into(), workers, pool, feat, cfg: vec![hold, nvals, (delays[1] % 2) as i64], actors, sched, weak: 0 }
         })
         .boxed()
 }
